@@ -55,6 +55,11 @@ def cases(tier, inst):
                         # every stream with the same name (identical parallel trains), and unit-operation targeting switched on
                         yield {"streams": ms, "part": list(part), "uset": ui, "form": "flat", "inst": list(inst), "samenames": True}
                         yield {"streams": ms, "part": list(part), "uset": ui, "form": "flat", "inst": list(inst), "optarget": True}
+    # sites of realistic size: 9-30 streams dealt round-robin to three zones
+    for ms in P.crowds(inst, 3, dts=(1,)):
+        for ui in range(5):
+            yield {"streams": ms, "part": [i % 3 for i in range(len(ms))], "uset": ui, "form": "flat", "inst": list(inst)}
+        yield {"streams": ms, "part": [i % 3 for i in range(len(ms))], "uset": 1, "form": "tree2", "inst": list(inst)}
     # a bench-scale site (loads of 1e-4 .. 1e-3): every absolute threshold of the library is larger than what the zones draw
     small = (inst[0], inst[1], 1.7e-5 * inst[2], inst[3])
     for ms in P.stream_multisets(small, 3, 2, cps=(1, 2), dts=(1,), iso=False, min_n=2):
@@ -178,7 +183,7 @@ SUBCHECKS = {
         rule="case = stream multiset x partition into zones x utility set x label form (flat / nested / explicit tree / tree of two sub-sites); "
              "non-trivial = inter-zone recovery happens (TS < TZ) or both sides of the summed targets are non-zero; counted separately in stats",
         cases=cases, run=run,
-        bound=lambda t: ("2-3 streams over 12 stream types, <=3 zones, 5 utility sets" if t == "quick" else "2-4 streams over 18 types (latent incl.), <=4 zones, 5 utility sets, all label forms") + " + one-zone sites + sites of two sub-sites (explicit tree) + a bench-scale site + streams inside a <1 K sliver between a use and a generation level"
+        bound=lambda t: ("2-3 streams over 12 stream types, <=3 zones, 5 utility sets" if t == "quick" else "2-4 streams over 18 types (latent incl.), <=4 zones, 5 utility sets, all label forms") + " + 7 sites of 9-30 streams in three zones + one-zone sites + sites of two sub-sites (explicit tree) + a bench-scale site + streams inside a <1 K sliver between a use and a generation level"
         + " + same-name streams and unit-operation targeting variants",
     ),
 }
